@@ -144,7 +144,7 @@ def run_fwd(ctx, rep, ops=None, rule="FWD"):
 
 
 
-from . import guard, arith, unwrap, cmp, families2 as f2
+from . import guard, arith, unwrap, cmp, defs, families2 as f2
 import re as _re
 
 
@@ -175,6 +175,14 @@ def run_generic(ctx, rep, rule, fn, select=None, configs=CONFIGS, memo_key=None,
             else:
                 m.add(rule, key, v == "pass", msg, where, cfg)
     m.emit()
+    return n
+
+
+def run_defs(ctx, rep, *frags, floor=None):
+    """definitional functions/constants the property's other rules rely on (DEFS), selected by key fragment"""
+    n = run_generic(ctx, rep, "DEFS", defs.check, select=lambda b, k: not frags or any(f in k for f in frags), memo_key="defs")
+    if floor is not None:
+        rep.floor("definitional functions/constants relied upon (DEFS)", n, floor)
     return n
 
 
@@ -596,6 +604,12 @@ def check_c03(ctx, rep, tier):
     rep.floor("Bv non-operator methods (dispatch)", run_dispatch(ctx, rep), 71)
     n = run_generic(ctx, rep, "SIB", f2.cloned_pairs)
     rep.floor("hand-cloned Bvf/Bvd method pairs compared (stretch SIB)", n, 22)
+    n = run_generic(ctx, rep, "FMT", f2.fmt_facts)
+    rep.floor("formatting observers (prefix constants, sibling digit extraction)", n, 14)
+    run_defs(ctx, rep, floor=51)
+    rep.notes.append("FMT / stretch-SIB instances on rotl/rotr, bit counts and formatting are supporting facts for the "
+                     "not-applicable properties C06, C16, C14: they are observers/operations C03 quantifies over, and a drift "
+                     "of one hand-written copy is reported here; their value-level content is not decided")
     rep.not_decided += [
         "internals of K5 table entries (values written inside 0..len by shifts, rotations, parsers, append/prepend)",
         "histories are covered by induction (every writer re-establishes the padding invariant), not enumerated",
@@ -631,6 +645,7 @@ def check_c01(ctx, rep, tier):
     counts = run_fwd(ctx, rep, ops=("Add", "Sub", "Mul"))
     _fwd_floor(rep, counts, "+ - *", 350, 12)
     run_generic(ctx, rep, "LEN", f2.length_effects, select=lambda b, k: b.trait in ("AddAssign", "SubAssign", "Mul", "MulAssign"))
+    run_defs(ctx, rep, "BIT_UNIT", "Constants", "get_int", "int_len", "capacity_from_bit_len", floor=38)
     rep.not_decided += ["that the kernels compute the right digits (value-level)", "u128::wmul (no sibling copy to compare with)",
                         "the bound carry + high product word <= MAX (table entry)"]
 
@@ -648,6 +663,7 @@ def check_c02(ctx, rep, tier):
     rep.floor("div_rem result shapes", n, 3)
     n = run_generic(ctx, rep, "SIB", f2.div_rem_siblings)
     rep.floor("div_rem sibling comparisons", n, 2)
+    run_defs(ctx, rep, "significant_bits", "is_empty", floor=2)
     rep.not_decided += ["q*b + r = a and r < b (values of the shift-subtract loop)"]
 
 
@@ -663,6 +679,7 @@ def check_c04(ctx, rep, tier):
     counts = run_fwd(ctx, rep, ops=("BitAnd", "BitOr", "BitXor", "Not"))
     _fwd_floor(rep, counts, "& | ^ !", 288, 15)
     run_generic(ctx, rep, "LEN", f2.length_effects, select=lambda b, k: b.trait in BIT_KERNEL_TRAITS)
+    run_defs(ctx, rep, "BIT_UNIT", "get_int", "int_len", "capacity_from_bit_len", "ZERO", floor=14)
     rep.not_decided += ["alignment of rhs words across different word sizes (get_int re-chunking, value-level)"]
 
 
@@ -730,6 +747,7 @@ def check_c09(ctx, rep, tier):
     rep.notes.append("Bvd x Bvd comparisons read all *allocated* words: they rely on the padding invariant decided under C03 (USED/MASK)")
     if tier == "thorough":
         _matrix(ctx, rep, ("cmp",))
+    run_defs(ctx, rep, "get_int", "int_len", floor=4)
     rep.not_decided += ["get_int re-chunking values across word sizes"]
 
 
@@ -737,6 +755,7 @@ def check_c10(ctx, rep, tier):
     n = run_generic(ctx, rep, "HASH", cmp.hash_taint)
     rep.floor("hash sinks / loop bounds / mode checks", n, 7)
     run_generic(ctx, rep, "UNWRAP", unwrap.sites, configs=("dbg",), select=lambda b, k: b.name == "hash")
+    run_defs(ctx, rep, "significant_bits", "capacity_from_bit", floor=3)
     rep.not_decided += ["that significant_bits is exact (C16, value-level)"]
 
 
@@ -783,6 +802,7 @@ def check_c12(ctx, rep, tier):
     rep.floor("new/into_inner", n, 4)
     if tier == "thorough":
         _matrix(ctx, rep, ("conv",))
+    run_defs(ctx, rep, "get_int", "int_len", "::len", "capacity", floor=12)
     rep.not_decided += ["re-chunking values across word sizes (get_int)"]
 
 
@@ -869,6 +889,7 @@ def check_c18(ctx, rep, tier):
     run_generic(ctx, rep, "UNWRAP", unwrap.sites, configs=("dbg",),
                 select=lambda b, k: b.self_family == "Bv" and b.name in ("shrink_to_fit", "copy_range", "from"))
     run_dispatch(ctx, rep)
+    run_defs(ctx, rep, "capacity", "::len", floor=8)
     rep.not_decided += ["allocator behaviour (capacity() after reserve may exceed the request)"]
 
 
@@ -889,6 +910,7 @@ def check_c19(ctx, rep, tier):
         return out
     run_generic(ctx, rep, "REACH", reach, memo_key="c19reach")
     run_generic(ctx, rep, "ORDER", f2.trait_defaults, select=lambda b, k: any(x in k for x in ("insert", "sign_extend", "Extend", "FromIterator")))
+    run_defs(ctx, rep, "capacity", "::len", "BIT_UNIT", floor=10)
 
 
 def check_c20(ctx, rep, tier):
